@@ -62,7 +62,7 @@ int main(int argc, char** argv) {
                         if (op == 0) { if (!carquet_rle_decoder_has_next(&dec)) { bad = 1; break; } so[pos++] = carquet_rle_decoder_get(&dec); }
                         else if (op == 1) { int64_t g = carquet_rle_decoder_skip(&dec, k); if (g != k) { bad = 1; break; } pos += g; }
                         else { int64_t g = carquet_rle_decoder_get_batch(&dec, so + pos, k); if (g != k) { bad = 1; break; } pos += g; } }
-                    if (bad || memcmp(so, out, (size_t)count * 4) != 0) { fprintf(stderr, "C12: streaming decoder disagrees with one-shot decode\n"); if (bad) n = pos; memcpy(out, so, (size_t)count * 4); if (!bad) out[0] ^= (so[0] == out[0]) ? 0u : 0u; }
+                    if (bad || memcmp(so, out, (size_t)count * 4) != 0) { fprintf(stderr, "C12: streaming decoder disagrees with one-shot decode\n"); if (bad) n = pos; memcpy(out, so, (size_t)count * 4); }
                     free(so); }
                 out_rec(o, n == (int64_t)count ? 0 : 1, (uint32_t)(n < 0 ? 0 : n), out, n > 0 ? (size_t)n * 4 : 0); free(out); break; }
             case 2: { int16_t* out = v_exact((size_t)count * 2); int64_t n = carquet_rle_decode_levels(in, len, (int)p1, out, count); out_rec(o, n == (int64_t)count ? 0 : 1, (uint32_t)(n < 0 ? 0 : n), out, n > 0 ? (size_t)n * 2 : 0); free(out); break; }
